@@ -290,3 +290,47 @@ func genBPProg(r *RNG) *Prog {
 	addI(p, must(x86.RET()), nil)
 	return p
 }
+
+// indexedLocalProgs: stack locals (and arguments) addressed with a virtual index register while other
+// values are live: the index is a register the instruction reads although the base is a pseudo register
+func indexedLocalProgs(r *RNG, n int) []*Prog {
+	var ps []*Prog
+	for k := 0; k < n; k++ {
+		p := &Prog{Tags: map[string]bool{"indexed-local": true}, Attrs: attr.NOSPLIT, Local: 64}
+		coll := reg.NewCollection()
+		nv := 2 + r.Intn(11)
+		var vs []reg.GPVirtual
+		i := coll.GP64()
+		if r.Bool() { // the index is set before the values (they are then defined while it is live) or after them
+			addI(p, must(x86.MOVQ(operand.U32(uint32(r.Intn(4))), i)), nil)
+		}
+		for j := 0; j < nv; j++ {
+			v := coll.GP64()
+			vs = append(vs, v)
+			addI(p, must(x86.MOVQ(operand.U32(uint32(10+j)), v)), nil)
+		}
+		if len(p.Nodes) == nv {
+			addI(p, must(x86.MOVQ(operand.U32(uint32(r.Intn(4))), i)), nil)
+		}
+		for j := 0; j < nv; j++ {
+			var m operand.Mem
+			if r.Chance(80) {
+				m = idxMem(stackMem(8*(j%4)), i, Pick(r, []uint8{1, 8}))
+			} else {
+				m = idxMem(paramMem("x", 0), i, 8)
+			}
+			if r.Bool() {
+				addI(p, must(x86.MOVQ(vs[j], m)), nil)
+			} else {
+				addI(p, must(x86.ADDQ(m, vs[j])), nil)
+			}
+		}
+		for j := 1; j < nv; j++ {
+			addI(p, must(x86.ADDQ(vs[j], vs[0])), nil)
+		}
+		addI(p, must(x86.MOVQ(vs[0], reg.RAX)), nil)
+		addI(p, must(x86.RET()), nil)
+		ps = append(ps, p)
+	}
+	return ps
+}
